@@ -150,21 +150,94 @@ package stanza
 //@ event TokenRead(t Iface)
 //@ pred isStreamEnd(t) := typeof(t) == xml.EndElement && t.(xml.EndElement).Name.Space == NSStream && t.(xml.EndElement).Name.Local == "stream"
 //@ pred seSpace(t) := t.(xml.StartElement).Name.Space
+//@ pred attrOf(attrs, name, v, v0) := (forall(k, 0, len(attrs), attrs[k].Name.Local != name) && v == v0) || exists(k, 0, len(attrs), attrs[k].Name.Local == name && v == attrs[k].Value && forall(j, k + 1, len(attrs), attrs[j].Name.Local != name))
+//@ pred seName(t) := t.(xml.StartElement).Name
+//@ pred seAttr(t) := t.(xml.StartElement).Attr
 //@ pred seLocal(t) := t.(xml.StartElement).Name.Local
 //@ pred isSE(t, space, local) := typeof(t) == xml.StartElement && seSpace(t) == space && seLocal(t) == local
 //@ pred isStanzaName(l) := l == "message" || l == "presence" || l == "iq"
 //
 //@ pred sameTok(a, b) := typeof(a) == typeof(b) && (typeof(a) == xml.StartElement ==> a.(xml.StartElement) == b.(xml.StartElement)) && (typeof(a) == xml.EndElement ==> a.(xml.EndElement) == b.(xml.EndElement))
+//@ pred inStream(p) := depth(p) == 1 && openNames(p)[1].Space == NSStream && openNames(p)[1].Local == "stream"
 //@ func stanza.NextXmppToken(p) (t, err)
 //@   requires p != nil
 //@   ensures [C02.token] err == nil ==> count(TokenRead) > old(count(TokenRead)) && sameTok(t, last(TokenRead)) && (typeof(t) == xml.StartElement || isStreamEnd(t))
-//@   emits TokenRead
+//@   ensures [C02.token.first] forall(j, old(count(TokenRead)), count(TokenRead) - 1, typeof(arg(TokenRead, j)) != xml.StartElement && !isStreamEnd(arg(TokenRead, j)))
+//@   ensures [C02.token.depth] (old(inStream(p)) && err == nil && typeof(t) == xml.StartElement) ==> depth(p) == 2 && openNames(p)[2] == t.(xml.StartElement).Name && openNames(p)[1] == old(openNames(p)[1])
+//@   ensures [C02.token.end] (old(inStream(p)) && err == nil && typeof(t) != xml.StartElement) ==> depth(p) == 0
+//@   ensures [C02.token.fail] err != nil ==> count(DecodeFailed) > old(count(DecodeFailed))
+//@   assigns depth(p), openNames(p), remaining(p)
+//@   emits TokenRead, DecodeFailed
 //@   loop 1:
 //@     invariant count(TokenRead) >= old(count(TokenRead))
+//@     invariant [C02.token.first] forall(j, old(count(TokenRead)), count(TokenRead), typeof(arg(TokenRead, j)) != xml.StartElement && !isStreamEnd(arg(TokenRead, j)))
+//@     invariant [C02.token.depth,C02.token.end] old(inStream(p)) ==> inStream(p) && openNames(p)[1] == old(openNames(p)[1])
+//@     invariant [C02.token.fail] count(DecodeFailed) == old(count(DecodeFailed))
+//@     decreases remaining(p)
 //
 // Dispatch table of the property: element name -> packet kind; anything else is an error.
-//@ pred kindOK(t, pk) := (isStreamEnd(t) ==> typeof(pk) == StreamClosePacket) && (isSE(t, NSStream, "error") ==> typeof(pk) == StreamError) && (isSE(t, NSStream, "features") ==> typeof(pk) == StreamFeatures) && (isSE(t, NSSASL, "success") ==> typeof(pk) == SASLSuccess) && (isSE(t, NSSASL, "failure") ==> typeof(pk) == SASLFailure) && (isSE(t, NSClient, "message") || isSE(t, NSComponent, "message") ==> typeof(pk) == Message) && (isSE(t, NSClient, "presence") || isSE(t, NSComponent, "presence") ==> typeof(pk) == Presence) && (isSE(t, NSClient, "iq") || isSE(t, NSComponent, "iq") ==> typeof(pk) == *IQ && pk.(*IQ) != nil) && (isSE(t, NSComponent, "handshake") ==> typeof(pk) == Handshake) && (isSE(t, NSStreamManagement, "enabled") ==> typeof(pk) == SMEnabled) && (isSE(t, NSStreamManagement, "resumed") ==> typeof(pk) == SMResumed) && (isSE(t, NSStreamManagement, "resume") ==> typeof(pk) == SMResume) && (isSE(t, NSStreamManagement, "r") ==> typeof(pk) == SMRequest) && (isSE(t, NSStreamManagement, "a") ==> typeof(pk) == SMAnswer) && (isSE(t, NSStreamManagement, "failed") ==> typeof(pk) == SMFailed)
-//@ pred knownName(t) := isStreamEnd(t) || (typeof(t) == xml.StartElement && ((seSpace(t) == NSStream && (seLocal(t) == "error" || seLocal(t) == "features")) || (seSpace(t) == NSSASL && (seLocal(t) == "success" || seLocal(t) == "failure")) || (seSpace(t) == NSClient && isStanzaName(seLocal(t))) || (seSpace(t) == NSComponent && (isStanzaName(seLocal(t)) || seLocal(t) == "handshake")) || (seSpace(t) == NSStreamManagement && (seLocal(t) == "enabled" || seLocal(t) == "resumed" || seLocal(t) == "resume" || seLocal(t) == "r" || seLocal(t) == "a" || seLocal(t) == "failed"))))
+//@ pred nm(n, space, local) := n.Space == space && n.Local == local
+//@ pred kindOfName(n, pk) := (nm(n, NSStream, "error") ==> typeof(pk) == StreamError) && (nm(n, NSStream, "features") ==> typeof(pk) == StreamFeatures) && (nm(n, NSSASL, "success") ==> typeof(pk) == SASLSuccess) && (nm(n, NSSASL, "failure") ==> typeof(pk) == SASLFailure) && (nm(n, NSClient, "message") || nm(n, NSComponent, "message") ==> typeof(pk) == Message) && (nm(n, NSClient, "presence") || nm(n, NSComponent, "presence") ==> typeof(pk) == Presence) && (nm(n, NSClient, "iq") || nm(n, NSComponent, "iq") ==> typeof(pk) == *IQ && pk.(*IQ) != nil) && (nm(n, NSComponent, "handshake") ==> typeof(pk) == Handshake) && (nm(n, NSStreamManagement, "enabled") ==> typeof(pk) == SMEnabled) && (nm(n, NSStreamManagement, "resumed") ==> typeof(pk) == SMResumed) && (nm(n, NSStreamManagement, "resume") ==> typeof(pk) == SMResume) && (nm(n, NSStreamManagement, "r") ==> typeof(pk) == SMRequest) && (nm(n, NSStreamManagement, "a") ==> typeof(pk) == SMAnswer) && (nm(n, NSStreamManagement, "failed") ==> typeof(pk) == SMFailed)
+//@ pred knownElem(n) := (n.Space == NSStream && (n.Local == "error" || n.Local == "features")) || (n.Space == NSSASL && (n.Local == "success" || n.Local == "failure")) || (n.Space == NSClient && isStanzaName(n.Local)) || (n.Space == NSComponent && (isStanzaName(n.Local) || n.Local == "handshake")) || (n.Space == NSStreamManagement && (n.Local == "enabled" || n.Local == "resumed" || n.Local == "resume" || n.Local == "r" || n.Local == "a" || n.Local == "failed"))
+//@ pred kindOK(t, pk) := (isStreamEnd(t) ==> typeof(pk) == StreamClosePacket) && (typeof(t) == xml.StartElement ==> kindOfName(seName(t), pk))
+//@ pred knownName(t) := isStreamEnd(t) || (typeof(t) == xml.StartElement && knownElem(seName(t)))
+//
+// The per-namespace decoders: each consumes exactly the element whose start tag it is given (one DecodeElement,
+// successful), yields the packet kind of the local name, and fails only if the decoder does or the name is unknown.
+//@ pred decodedOne(p) := depth(p) == old(depth(p)) - 1 && lowerNamesKept(p) && count(DecodedElement) == old(count(DecodedElement)) + 1 && last(DecodedElement, 1)
+//@ pred stanzaAddr(attrs, name, id, typ, to, from, xn) := xn == name && attrOf(attrs, "id", id, "") && attrOf(attrs, "type", typ, "") && attrOf(attrs, "to", to, "") && attrOf(attrs, "from", from, "")
+//@ func stanza.decodeClient(p, se) (pk, err)
+//@   requires p != nil
+//@   ensures [C02.result] err == nil ==> pk != nil && fresh(pk)
+//@   ensures [C02.kind]   err == nil ==> (se.Name.Local == "message" && typeof(pk) == Message) || (se.Name.Local == "presence" && typeof(pk) == Presence) || (se.Name.Local == "iq" && typeof(pk) == *IQ && pk.(*IQ) != nil)
+//@   ensures [C02.one]    err == nil ==> decodedOne(p)
+//@   ensures [C02.total]  err != nil ==> count(DecodeFailed) > old(count(DecodeFailed)) || !isStanzaName(se.Name.Local)
+//@   ensures [C02.addr.message]  (err == nil && typeof(pk) == Message) ==> stanzaAddr(se.Attr, se.Name, pk.(Message).Id, pk.(Message).Type, pk.(Message).To, pk.(Message).From, pk.(Message).XMLName)
+//@   ensures [C02.addr.presence] (err == nil && typeof(pk) == Presence) ==> stanzaAddr(se.Attr, se.Name, pk.(Presence).Id, pk.(Presence).Type, pk.(Presence).To, pk.(Presence).From, pk.(Presence).XMLName)
+//@   ensures [C02.addr.iq]       (err == nil && typeof(pk) == *IQ) ==> stanzaAddr(se.Attr, se.Name, pk.(*IQ).Id, pk.(*IQ).Type, pk.(*IQ).To, pk.(*IQ).From, pk.(*IQ).XMLName)
+//@   ensures typeof(pk) == *IQ ==> pk.(*IQ) != nil
+//@   assigns depth(p), openNames(p), remaining(p)
+//@   emits DecodedElement, DecodeFailed
+//@ func stanza.decodeComponent(p, se) (pk, err)
+//@   requires p != nil
+//@   ensures [C02.result] err == nil ==> pk != nil && fresh(pk)
+//@   ensures [C02.kind]   err == nil ==> (se.Name.Local == "message" && typeof(pk) == Message) || (se.Name.Local == "presence" && typeof(pk) == Presence) || (se.Name.Local == "iq" && typeof(pk) == *IQ && pk.(*IQ) != nil) || (se.Name.Local == "handshake" && typeof(pk) == Handshake)
+//@   ensures [C02.one]    err == nil ==> decodedOne(p)
+//@   ensures [C02.total]  err != nil ==> count(DecodeFailed) > old(count(DecodeFailed)) || !(isStanzaName(se.Name.Local) || se.Name.Local == "handshake")
+//@   ensures [C02.addr.message]  (err == nil && typeof(pk) == Message) ==> stanzaAddr(se.Attr, se.Name, pk.(Message).Id, pk.(Message).Type, pk.(Message).To, pk.(Message).From, pk.(Message).XMLName)
+//@   ensures [C02.addr.presence] (err == nil && typeof(pk) == Presence) ==> stanzaAddr(se.Attr, se.Name, pk.(Presence).Id, pk.(Presence).Type, pk.(Presence).To, pk.(Presence).From, pk.(Presence).XMLName)
+//@   ensures [C02.addr.iq]       (err == nil && typeof(pk) == *IQ) ==> stanzaAddr(se.Attr, se.Name, pk.(*IQ).Id, pk.(*IQ).Type, pk.(*IQ).To, pk.(*IQ).From, pk.(*IQ).XMLName)
+//@   ensures typeof(pk) == *IQ ==> pk.(*IQ) != nil
+//@   assigns depth(p), openNames(p), remaining(p)
+//@   emits DecodedElement, DecodeFailed
+//@ func stanza.decodeSASL(p, se) (pk, err)
+//@   requires p != nil
+//@   ensures [C02.result] err == nil ==> pk != nil && fresh(pk)
+//@   ensures [C02.kind]   err == nil ==> (se.Name.Local == "success" && typeof(pk) == SASLSuccess) || (se.Name.Local == "failure" && typeof(pk) == SASLFailure)
+//@   ensures [C02.one]    err == nil ==> decodedOne(p)
+//@   ensures [C02.total]  err != nil ==> count(DecodeFailed) > old(count(DecodeFailed)) || !(se.Name.Local == "success" || se.Name.Local == "failure")
+//@   ensures typeof(pk) == *IQ ==> pk.(*IQ) != nil
+//@   assigns depth(p), openNames(p), remaining(p)
+//@   emits DecodedElement, DecodeFailed
+//@ func (stanza.smDecoder).decode(s, p, se) (pk, err)
+//@   requires p != nil
+//@   ensures [C02.result] err == nil ==> pk != nil && fresh(pk)
+//@   ensures [C02.kind]   err == nil ==> (se.Name.Local == "enabled" && typeof(pk) == SMEnabled) || (se.Name.Local == "resumed" && typeof(pk) == SMResumed) || (se.Name.Local == "resume" && typeof(pk) == SMResume) || (se.Name.Local == "r" && typeof(pk) == SMRequest) || (se.Name.Local == "a" && typeof(pk) == SMAnswer) || (se.Name.Local == "failed" && typeof(pk) == SMFailed)
+//@   ensures [C02.one]    err == nil ==> decodedOne(p)
+//@   ensures [C02.total]  err != nil ==> count(DecodeFailed) > old(count(DecodeFailed)) || !(se.Name.Local == "enabled" || se.Name.Local == "resumed" || se.Name.Local == "resume" || se.Name.Local == "r" || se.Name.Local == "a" || se.Name.Local == "failed")
+//@   ensures typeof(pk) == *IQ ==> pk.(*IQ) != nil
+//@   assigns depth(p), openNames(p), remaining(p)
+//@   emits DecodedElement, DecodeFailed
+//@ func stanza.decodeStream(p, t) (pk, err)
+//@   requires p != nil
+//@   ensures [C02.result] err == nil ==> pk != nil && fresh(pk)
+//@   ensures [C02.kind]   err == nil ==> (typeof(t) == xml.StartElement && seLocal(t) == "error" && typeof(pk) == StreamError) || (typeof(t) == xml.StartElement && seLocal(t) == "features" && typeof(pk) == StreamFeatures) || (typeof(t) == xml.EndElement && t.(xml.EndElement).Name.Local == "stream" && typeof(pk) == StreamClosePacket)
+//@   ensures [C02.one]    (err == nil && typeof(t) == xml.StartElement) ==> decodedOne(p)
+//@   ensures [C02.close]  typeof(t) != xml.StartElement ==> depth(p) == old(depth(p)) && openNames(p) == old(openNames(p)) && count(DecodedElement) == old(count(DecodedElement))
+//@   ensures [C02.total]  err != nil ==> count(DecodeFailed) > old(count(DecodeFailed)) || !((typeof(t) == xml.StartElement && (seLocal(t) == "error" || seLocal(t) == "features")) || (typeof(t) == xml.EndElement && t.(xml.EndElement).Name.Local == "stream"))
+//@   ensures typeof(pk) == *IQ ==> pk.(*IQ) != nil
+//@   assigns depth(p), openNames(p), remaining(p)
+//@   emits DecodedElement, DecodeFailed
 //
 //@ func stanza.NextPacket(p) (pk, err)
 //@   requires p != nil
@@ -173,9 +246,18 @@ package stanza
 //@   emit AckReqRead(pk) when err == nil && typeof(pk) == SMRequest
 //@   emit StreamErrRead(pk) when err == nil && typeof(pk) == StreamError
 //@   ensures [C02.result]  err == nil ==> pk != nil && fresh(pk)
-//@   ensures [C02.kind]    err == nil ==> count(TokenRead) > old(count(TokenRead)) && exists(j, old(count(TokenRead)), count(TokenRead), kindOK(arg(TokenRead, j), pk) && knownName(arg(TokenRead, j)))
+//@   ensures [C02.kind]    err == nil ==> count(TokenRead) > old(count(TokenRead)) && kindOK(last(TokenRead), pk) && knownName(last(TokenRead))
+//@   ensures [C02.first]   forall(j, old(count(TokenRead)), count(TokenRead) - 1, typeof(arg(TokenRead, j)) != xml.StartElement && !isStreamEnd(arg(TokenRead, j)))
+//@   ensures [C02.one]     (old(inStream(p)) && err == nil && typeof(pk) != StreamClosePacket) ==> inStream(p) && openNames(p)[1] == old(openNames(p)[1]) && count(DecodedElement) == old(count(DecodedElement)) + 1 && last(DecodedElement, 1)
+//@   ensures [C02.addr.message]  (err == nil && typeof(pk) == Message) ==> stanzaAddr(seAttr(last(TokenRead)), seName(last(TokenRead)), pk.(Message).Id, pk.(Message).Type, pk.(Message).To, pk.(Message).From, pk.(Message).XMLName)
+//@   ensures [C02.addr.presence] (err == nil && typeof(pk) == Presence) ==> stanzaAddr(seAttr(last(TokenRead)), seName(last(TokenRead)), pk.(Presence).Id, pk.(Presence).Type, pk.(Presence).To, pk.(Presence).From, pk.(Presence).XMLName)
+//@   ensures [C02.addr.iq]       (err == nil && typeof(pk) == *IQ) ==> stanzaAddr(seAttr(last(TokenRead)), seName(last(TokenRead)), pk.(*IQ).Id, pk.(*IQ).Type, pk.(*IQ).To, pk.(*IQ).From, pk.(*IQ).XMLName)
+//@   ensures [C02.close]   (old(inStream(p)) && err == nil && typeof(pk) == StreamClosePacket) ==> depth(p) == 0
+//@   ensures [C02.total]   err != nil ==> count(DecodeFailed) > old(count(DecodeFailed)) || (count(TokenRead) > old(count(TokenRead)) && !knownName(last(TokenRead)))
+//@   ensures [C02.unknown] (count(TokenRead) > old(count(TokenRead)) && (typeof(last(TokenRead)) == xml.StartElement || isStreamEnd(last(TokenRead))) && !knownName(last(TokenRead))) ==> err != nil
 //@   ensures typeof(pk) == *IQ ==> pk.(*IQ) != nil
-//@   emits TokenRead
+//@   assigns depth(p), openNames(p), remaining(p)
+//@   emits TokenRead, DecodedElement, DecodeFailed
 //@ event StreamErrRead(pk Iface)
 
 // ---------------------------------------------------------------------------
@@ -242,12 +324,24 @@ package stanza
 //@   requires msg != nil && atElement(d, start)
 //@   ensures [C02.consume.message] err == nil ==> consumed(d)
 //@   ensures [C02.total.message]   err != nil ==> count(DecodeFailed) > old(count(DecodeFailed))
+//@   ensures [C02.attrs.message] err == nil ==> attrOf(start.Attr, "id", msg.Id, old(msg.Id))
+//@   ensures [C02.attrs.message] err == nil ==> attrOf(start.Attr, "type", msg.Type, old(msg.Type))
+//@   ensures [C02.attrs.message] err == nil ==> attrOf(start.Attr, "to", msg.To, old(msg.To))
+//@   ensures [C02.attrs.message] err == nil ==> attrOf(start.Attr, "from", msg.From, old(msg.From))
+//@   ensures [C02.attrs.message] err == nil ==> attrOf(start.Attr, "lang", msg.Lang, old(msg.Lang))
+//@   ensures [C02.attrs.message] err == nil ==> msg.XMLName == start.Name
 //@   assigns *msg, depth(d), openNames(d), remaining(d)
 //@   emits TokenRead, DecodedElement, DecodeFailed
 //@   loop 1:
 //@     invariant 0 <= $i && $i <= len(start.Attr)
+//@     invariant [C02.attrs.message] attrOf($range[:$i], "id", msg.Id, old(msg.Id))
+//@     invariant [C02.attrs.message] attrOf($range[:$i], "type", msg.Type, old(msg.Type))
+//@     invariant [C02.attrs.message] attrOf($range[:$i], "to", msg.To, old(msg.To))
+//@     invariant [C02.attrs.message] attrOf($range[:$i], "from", msg.From, old(msg.From))
+//@     invariant [C02.attrs.message] attrOf($range[:$i], "lang", msg.Lang, old(msg.Lang))
 //@     decreases len(start.Attr) - $i
 //@   loop 2:
+//@     invariant [C02.attrs.message] attrOf(start.Attr, "id", msg.Id, old(msg.Id)) && attrOf(start.Attr, "type", msg.Type, old(msg.Type)) && attrOf(start.Attr, "to", msg.To, old(msg.To)) && attrOf(start.Attr, "from", msg.From, old(msg.From)) && attrOf(start.Attr, "lang", msg.Lang, old(msg.Lang)) && msg.XMLName == start.Name
 //@     invariant [C02.consume.message] depth(d) == old(depth(d))
 //@     invariant [C02.consume.message] openNames(d)[depth(d)] == start.Name
 //@     invariant [C02.consume.message] lowerNamesKept(d)
@@ -259,12 +353,24 @@ package stanza
 //@   requires x != nil && atElement(d, start)
 //@   ensures [C02.consume.presence] err == nil ==> consumed(d)
 //@   ensures [C02.total.presence]   err != nil ==> count(DecodeFailed) > old(count(DecodeFailed))
+//@   ensures [C02.attrs.presence] err == nil ==> attrOf(start.Attr, "id", x.Id, old(x.Id))
+//@   ensures [C02.attrs.presence] err == nil ==> attrOf(start.Attr, "type", x.Type, old(x.Type))
+//@   ensures [C02.attrs.presence] err == nil ==> attrOf(start.Attr, "to", x.To, old(x.To))
+//@   ensures [C02.attrs.presence] err == nil ==> attrOf(start.Attr, "from", x.From, old(x.From))
+//@   ensures [C02.attrs.presence] err == nil ==> attrOf(start.Attr, "lang", x.Lang, old(x.Lang))
+//@   ensures [C02.attrs.presence] err == nil ==> x.XMLName == start.Name
 //@   assigns *x, depth(d), openNames(d), remaining(d)
 //@   emits TokenRead, DecodedElement, DecodeFailed
 //@   loop 1:
 //@     invariant 0 <= $i && $i <= len(start.Attr)
+//@     invariant [C02.attrs.presence] attrOf($range[:$i], "id", x.Id, old(x.Id))
+//@     invariant [C02.attrs.presence] attrOf($range[:$i], "type", x.Type, old(x.Type))
+//@     invariant [C02.attrs.presence] attrOf($range[:$i], "to", x.To, old(x.To))
+//@     invariant [C02.attrs.presence] attrOf($range[:$i], "from", x.From, old(x.From))
+//@     invariant [C02.attrs.presence] attrOf($range[:$i], "lang", x.Lang, old(x.Lang))
 //@     decreases len(start.Attr) - $i
 //@   loop 2:
+//@     invariant [C02.attrs.presence] attrOf(start.Attr, "id", x.Id, old(x.Id)) && attrOf(start.Attr, "type", x.Type, old(x.Type)) && attrOf(start.Attr, "to", x.To, old(x.To)) && attrOf(start.Attr, "from", x.From, old(x.From)) && attrOf(start.Attr, "lang", x.Lang, old(x.Lang)) && x.XMLName == start.Name
 //@     invariant [C02.consume.presence] depth(d) == old(depth(d))
 //@     invariant [C02.consume.presence] openNames(d)[depth(d)] == start.Name
 //@     invariant [C02.consume.presence] lowerNamesKept(d)
@@ -276,12 +382,22 @@ package stanza
 //@   requires x != nil && atElement(d, start)
 //@   ensures [C02.consume.iq] err == nil ==> consumed(d)
 //@   ensures [C02.total.iq]   err != nil ==> count(DecodeFailed) > old(count(DecodeFailed))
+//@   ensures [C02.attrs.iq] err == nil ==> attrOf(start.Attr, "id", x.Id, old(x.Id))
+//@   ensures [C02.attrs.iq] err == nil ==> attrOf(start.Attr, "type", x.Type, old(x.Type))
+//@   ensures [C02.attrs.iq] err == nil ==> attrOf(start.Attr, "to", x.To, old(x.To))
+//@   ensures [C02.attrs.iq] err == nil ==> attrOf(start.Attr, "from", x.From, old(x.From))
+//@   ensures [C02.attrs.iq] err == nil ==> x.XMLName == start.Name
 //@   assigns *x, depth(d), openNames(d), remaining(d)
 //@   emits TokenRead, DecodedElement, DecodeFailed
 //@   loop 1:
 //@     invariant 0 <= $i && $i <= len(start.Attr)
+//@     invariant [C02.attrs.iq] attrOf($range[:$i], "id", x.Id, old(x.Id))
+//@     invariant [C02.attrs.iq] attrOf($range[:$i], "type", x.Type, old(x.Type))
+//@     invariant [C02.attrs.iq] attrOf($range[:$i], "to", x.To, old(x.To))
+//@     invariant [C02.attrs.iq] attrOf($range[:$i], "from", x.From, old(x.From))
 //@     decreases len(start.Attr) - $i
 //@   loop 2:
+//@     invariant [C02.attrs.iq] attrOf(start.Attr, "id", x.Id, old(x.Id)) && attrOf(start.Attr, "type", x.Type, old(x.Type)) && attrOf(start.Attr, "to", x.To, old(x.To)) && attrOf(start.Attr, "from", x.From, old(x.From)) && x.XMLName == start.Name
 //@     invariant [C02.consume.iq] depth(d) == old(depth(d))
 //@     invariant [C02.consume.iq] openNames(d)[depth(d)] == start.Name
 //@     invariant [C02.consume.iq] lowerNamesKept(d)
